@@ -38,6 +38,11 @@ def run(rep, prog, tier):
     check_export(rep, prog)
 
 
+def _fresh_key_objects(s):
+    """names bound on this path to a newly constructed PGPKey() (by what is constructed, not by what it is called)"""
+    return [e[1] for e in s.events if e[0] == 'assign' and e[1] == e[2] and 'PGPKey' in e[4]]
+
+
 def check_key_pubkey(rep, prog):
     ci = prog.cls('pgpy.pgp', 'PGPKey')
     pp = ci.plain_props.get('pubkey', {})
@@ -45,89 +50,148 @@ def check_key_pubkey(rep, prog):
     if g is None:
         raise AnalysisError('PGPKey.pubkey getter vanished')
     rep.saw(fn=g)
+    me = g.params[0]
+    sib = '%s._sibling' % me
+
+    def twin_key_stores(s):
+        return [(p[:-len('._key')], v) for p, v, l, _ in s.stores if p.endswith('._key') and p != '%s._key' % me]
     # (a) construction arm
-    sc = Scenario(bind={'self.is_public': Const(False), 'self._sibling': Const(None)}, inline=noinline)
+    sc = Scenario(bind={'%s.is_public' % me: Const(False), sib: Const(None)}, inline=noinline)
     outs = Interp(prog, sc).run(g)
     built = False
     for s in outs:
-        k = [v for p, v, l, _ in s.stores if p == 'pub._key']
-        if not k:
+        tk = twin_key_stores(s)
+        if not tk:
             continue
         built = True
-        rep.check(k == ['self._key.pubkey()'], 'C07.2', 'PGPKey.pubkey', 'pub._key = %s' % k,
+        names = sorted(set(n for n, v in tk))
+        if len(names) != 1 or names[0] not in _fresh_key_objects(s):
+            raise AnalysisError('PGPKey.pubkey: the object receiving the public packet (%s) is not a key object built here' % names)
+        twin = names[0]
+        k = [v for n, v in tk]
+        rep.check(k == ['%s._key.pubkey()' % me], 'C07.2', 'PGPKey.pubkey', 'pub._key = %s' % k,
                   'the twin\'s key packet must be the public half derived from the private packet', where=g.where,
-                  expected='self._key.pubkey()', found=k)
-        ors = [e for e in s.events if e[0] == 'ior' and e[1].startswith('pub') or (e[0] == 'ior' and 'PGPKey()' in e[1])]
-        vals = sorted(set(expand_bound(s, e[2]) for e in s.events if e[0] == 'ior'))
-        SUBKEY_TWINS = ('self.subkeys.items()[*]_1.pubkey', 'self.subkeys.values()[*].pubkey', 'self._children.items()[*]_1.pubkey',
-                        'self._children.values()[*].pubkey')
+                  expected='%s._key.pubkey()' % me, found=k)
+        # everything or-ed into the twin, in order; `cur` is the text of the twin after the attachments so far
+        cur, attached = twin, []
+        for e in s.events:
+            if e[0] == 'ior' and e[1] == cur:
+                attached.append(e[2])
+                cur = '(%s | %s)' % (cur, e[2])
+        vals = sorted(set(expand_bound(s, v) for v in attached))
+        SUBKEY_TWINS = tuple(t % me for t in ('%s.subkeys.items()[*]_1.pubkey', '%s.subkeys.values()[*].pubkey', '%s._children.items()[*]_1.pubkey',
+                                             '%s._children.values()[*].pubkey'))
         vals = ['<subkey>.pubkey' if v in SUBKEY_TWINS else v for v in vals]
-        allowed = {'<subkey>.pubkey', 'copy.copy(self._uids[*])', 'copy.copy(self._signatures[*])'}
+        allowed = {'<subkey>.pubkey', 'copy.copy(%s._uids[*])' % me, 'copy.copy(%s._signatures[*])' % me}
         rep.check(bool(vals) and set(vals) <= allowed, 'C07.2', 'PGPKey.pubkey', 'attached: %s' % vals,
                   'only public twins of subkeys and copies of user ids / signatures may be attached to the public twin', where=g.where,
                   expected=sorted(allowed), found=vals)
         rep.check(set(vals) == allowed, 'C07.2', 'PGPKey.pubkey', 'attached kinds %s' % vals,
                   'the twin must carry the subkeys, identities and signatures of the private key', where=g.where, expected=sorted(allowed), found=vals)
         r = render(s.ret)
-        rep.check(r in ('self._sibling()', 'pub', 'weakref.ref(pub)()'), 'C07.2', 'PGPKey.pubkey', 'returns %s' % r,
+        linked = [v for p, v, l, _ in s.stores if p == sib]
+        ok = r in (cur, 'weakref.ref(%s)()' % cur) or (r == '%s()' % sib and linked[-1:] == ['weakref.ref(%s)' % cur])
+        rep.check(ok, 'C07.2', 'PGPKey.pubkey', 'returns %s' % (r if len(r) < 60 else r[:57] + '...'),
                   'the object returned must be the twin that was just built', where=g.where, found=r)
     if not built:
         rep.violation('C07.2', 'PGPKey.pubkey', 'no construction arm', 'a private key with no twin yet does not build one', where=g.where)
     # public keys return themselves
-    for s in Interp(prog, Scenario(bind={'self.is_public': Const(True)}, inline=noinline)).run(g):
-        rep.check(render(s.ret) == 'self', 'C07.2', 'PGPKey.pubkey', 'public key returns %s' % render(s.ret), 'a public key is its own public twin',
+    for s in Interp(prog, Scenario(bind={'%s.is_public' % me: Const(True)}, inline=noinline)).run(g):
+        rep.check(render(s.ret) == me, 'C07.2', 'PGPKey.pubkey', 'public key returns %s' % render(s.ret), 'a public key is its own public twin',
                   where=g.where)
     # (b) is the rebuild unconditional when a twin already exists?  (_sibling is None or a weakref.ref - class invariant from __init__/pubkey)
-    sc = Scenario(bind={'self.is_public': Const(False), 'self._sibling': Sym('self._sibling', types={'ref'}, nonnull=True)}, inline=noinline)
+    sc = Scenario(bind={'%s.is_public' % me: Const(False), sib: Sym(sib, types={'ref'}, nonnull=True)}, inline=noinline)
     outs = Interp(prog, sc).run(g)
-    stale_paths = [s for s in outs if s.raised is None and not any(p == 'pub._key' for p, v, l, _ in s.stores)]
+    stale_paths = [s for s in outs if s.raised is None and not twin_key_stores(s)]
     if stale_paths:
         # a live twin may be returned without rebuilding: then every mutation of the certificate state must go through __or__ (which mirrors)
-        bypass = []
-        for name, defs in ci.all_defs.items():
-            if name in ('__or__', '__init__', '__copy__', 'parse'):
-                continue
-            for f in defs:
-                for n in ast.walk(f.node):
-                    t = None
-                    if isinstance(n, ast.Assign):
-                        for tg in n.targets:
-                            if isinstance(tg, ast.Subscript) and ast.unparse(tg.value) in ('self._children', 'self._uids', 'self._signatures'):
-                                t = ast.unparse(n)
-                    elif isinstance(n, ast.Call) and isinstance(n.func, ast.Attribute) and n.func.attr in ('remove', 'insort', 'append', 'pop') and \
-                            ast.unparse(n.func.value) in ('self._children', 'self._uids', 'self._signatures'):
-                        t = ast.unparse(n)
-                    if t:
-                        bypass.append('%s: %s' % (f.qualname, t))
+        bypass = _state_changes_outside_or(ci)
         rep.check(not bypass, 'C07.2', 'PGPKey.pubkey', 'cached twin returned while state changes bypass __or__: %s' % bypass,
                   'an existing public twin is returned without being rebuilt, yet %d operations change the key without mirroring '
                   'them to the twin: the twin can lack later subkeys / keep removed identities' % len(bypass), where=g.where,
                   expected='rebuild on every access, or mirror every mutation', found=bypass)
     else:
         rep.ok('C07.2', 'PGPKey.pubkey', 'the twin is rebuilt on every access of a private key')
-    # (c) a key accepts only children of its own kind, unconditionally
+    check_or(rep, prog, ci)
+
+
+STATE = ('_children', '_uids', '_signatures')
+
+
+def _state_changes_outside_or(ci):
+    """Methods of PGPKey (other than __or__ and the constructors) that add to / remove from the certificate state directly."""
+    bypass = []
+    for name, defs in ci.all_defs.items():
+        if name in ('__or__', '__init__', '__copy__', 'parse'):
+            continue
+        for f in defs:
+            if not f.params:
+                continue
+            me = f.params[0]
+            names = {}                       # local aliases of the state collections
+            for n in ast.walk(f.node):
+                if isinstance(n, ast.Assign) and len(n.targets) == 1 and isinstance(n.targets[0], ast.Name) and \
+                        dotted(n.value) in ['%s.%s' % (me, a) for a in STATE]:
+                    names[n.targets[0].id] = dotted(n.value)
+
+            def coll(x):
+                d = dotted(x)
+                d = names.get(d, d)
+                return d if d in ['%s.%s' % (me, a) for a in STATE] else None
+            for n in ast.walk(f.node):
+                t = None
+                if isinstance(n, (ast.Assign, ast.AugAssign, ast.Delete)):
+                    tgs = n.targets if not isinstance(n, ast.AugAssign) else [n.target]
+                    for tg in tgs:
+                        if isinstance(tg, ast.Subscript) and coll(tg.value):
+                            t = ast.unparse(n)
+                elif isinstance(n, ast.Call) and isinstance(n.func, ast.Attribute) and \
+                        n.func.attr in ('remove', 'insort', 'append', 'appendleft', 'pop', 'popleft', 'clear', 'extend', 'update', 'setdefault', 'insert') and \
+                        coll(n.func.value):
+                    t = ast.unparse(n)
+                if t:
+                    bypass.append('%s: %s' % (f.qualname, t))
+    return bypass
+
+
+def check_or(rep, prog, ci):
+    """(c) a key accepts only children of its own kind, unconditionally: on every path of __or__ that files `other` under the
+    subkeys, the decisions taken imply  isinstance(other, PGPKey), not other.is_primary, other.is_public == self.is_public."""
+    from sa.keyaction import assignments, consistent, _show
     orf = ci.methods.get('__or__')
-    arms = []
-    node = next((n for n in orf.node.body if isinstance(n, ast.If)), None)
-    while isinstance(node, ast.If):
-        arms.append(node)
-        node = node.orelse[0] if len(node.orelse) == 1 and isinstance(node.orelse[0], ast.If) else None
-    sub_arm = [a for a in arms if 'isinstance(other, PGPKey)' in ast.unparse(a.test)]
-    if len(sub_arm) != 1:
+    if orf is None or len(orf.params) < 2:
+        raise AnalysisError('PGPKey.__or__ vanished')
+    me, other = orf.params[0], orf.params[1]
+    outs = Interp(prog, Scenario(inline=noinline)).run(orf)
+    attach = [s for s in outs if any(p.startswith('%s._children[' % me) and v == other for p, v, l, _ in s.stores)]
+    if not attach:
         raise AnalysisError('PGPKey.__or__: subkey attachment arm not found')
-    t = sub_arm[0].test
-    conj = [ast.unparse(v) for v in t.values] if isinstance(t, ast.BoolOp) and isinstance(t.op, ast.And) else [ast.unparse(t)]
-    same_kind = any(c.replace(' ', '') in ('other.is_public==self.is_public', 'self.is_public==other.is_public') for c in conj)
-    rep.check(same_kind and 'not other.is_primary' in conj, 'C07.2', 'PGPKey.__or__', 'subkey arm: %s' % conj,
+    is_key = ('call', 'isinstance', (other, 'PGPKey'))
+    primary = ('expr', '%s.is_primary' % other)
+    same = ('eq', frozenset(('%s.is_public' % other, '%s.is_public' % me)))
+    bad = None
+    for assign in assignments(attach):
+        if not any(consistent(s, assign) for s in attach):
+            continue
+        if assign.get(is_key) is not True or assign.get(primary) is not False or assign.get(same) is not True:
+            bad = assign
+            break
+    line = min(l for s in attach for p, v, l, _ in s.stores if p.startswith('%s._children[' % me))
+    rep.check(bad is None, 'C07.2', 'PGPKey.__or__', 'subkey arm%s' % ('' if bad is None else ': taken under [%s]' % _show(bad)),
               'a key object must only ever accept subkeys of its own kind (public into public, private into private), '
-              'also when the addition is mirrored from its sibling', where='%s:%d' % (orf.module.relpath, sub_arm[0].lineno),
-              expected='isinstance(other, PGPKey) and not other.is_primary and other.is_public == self.is_public', found=ast.unparse(t))
+              'also when the addition is mirrored from its sibling', where='%s:%d' % (orf.module.relpath, line),
+              expected='isinstance(other, PGPKey) and not other.is_primary and other.is_public == self.is_public',
+              found=None if bad is None else _show(bad))
     # the mirror passes a copy and marks it so that it is not mirrored back
-    mir = [n for n in ast.walk(orf.node) if isinstance(n, ast.Call) and isinstance(n.func, ast.Attribute) and n.func.attr == '__or__']
-    for n in mir:
-        a = [ast.unparse(x) for x in n.args]
-        rep.check(a == ['copy.copy(other)', 'True'], 'C07.2', 'PGPKey.__or__', 'mirror call %s' % a, 'the sibling receives a copy, marked as coming from the sibling',
-                  where='%s:%d' % (orf.module.relpath, n.lineno))
+    seen = []
+    flag = orf.params[2] if len(orf.params) > 2 else None
+    for s in outs:
+        for c in s.calls:
+            if c[0].endswith('.__or__') and (c[0], c[3]) not in seen:
+                seen.append((c[0], c[3]))
+                a = list(c[1]) + ([c[2][flag]] if flag in c[2] else [])
+                rep.check(a == ['copy.copy(%s)' % other, 'True'], 'C07.2', 'PGPKey.__or__', 'mirror call %s' % a,
+                          'the sibling receives a copy, marked as coming from the sibling', where='%s:%d' % (orf.module.relpath, c[3]))
 
 
 def check_table(rep, prog):
